@@ -71,19 +71,19 @@ pub fn text_of_tape(t: &Tape) -> String {
 /// Campaign plan of a property's thorough tier: (stream, total runs, max input length in bytes).
 pub fn plan(property: &str) -> Vec<(&'static str, u64, usize)> {
     match property {
-        "C01" => vec![("general", 16_000, 2400)],
-        "C02" => vec![("uninspected", 16_000, 1200)],
+        "C01" => vec![("general", 100_000, 2400)],
+        "C02" => vec![("uninspected", 100_000, 1200)],
         "C03" => vec![("fuzztext", 800_000, 4096)],
-        "C05" => vec![("maps", 16_000, 1600)],
+        "C05" => vec![("maps", 100_000, 1600)],
         "C06" => vec![("fuzztext", 1_600_000, 4096)],
-        "C07" => vec![("casts", 16_000, 1200)],
+        "C07" => vec![("casts", 100_000, 1200)],
         "C11" => vec![("literals", 400_000, 800)],
-        "C12" => vec![("params", 16_000, 1600)],
-        "C14" => vec![("markers", 16_000, 2400)],
+        "C12" => vec![("params", 100_000, 1600)],
+        "C14" => vec![("markers", 100_000, 2400)],
         "C15" => vec![("values", 400_000, 800)],
         "C16" => vec![("fuzztext", 800_000, 4096)],
-        "C17" => vec![("rename", 16_000, 1600)],
-        "C18" => vec![("prune", 16_000, 1600)],
+        "C17" => vec![("rename", 100_000, 1600)],
+        "C18" => vec![("prune", 100_000, 1600)],
         "C20" => vec![("fuzztext", 800_000, 4096)],
         _ => vec![],
     }
